@@ -315,6 +315,7 @@ class Particle(Structure):
                 for p in simulation.particles:
                     interior_mass += p.m
                 # orbit conversion uses mu=G*(p.m+primary.m) so set prim.m=Mjac-m so mu=G*Mjac
+                primary = primary.copy() # do not modify the particle that was passed as primary (it might be part of the simulation)
                 primary.m = simulation.particles[0].m*(self.m + interior_mass)/interior_mass - self.m
             if a is None and P is None:
                 raise ValueError("You need to pass either a semimajor axis or orbital period to initialize the particle using orbital elements.")
